@@ -142,6 +142,14 @@ class Result:
         return self
 
 
+class RunTimeout(BaseException):
+    """raised by the per-run alarm"""
+
+
+def _on_alarm(signum, frame):
+    raise RunTimeout()
+
+
 class Abandon(Exception):
     """Raised inside a run when a discrepancy belonging to another property makes the rest of the
     run meaningless for this check (DESIGN 3.3)."""
@@ -160,11 +168,34 @@ def seed_for(check_id, batch_seed, i):
 
 def run_one(check, tier, seed=None, record=None):
     ch = Choices(seed=seed, record=record)
+    limit = getattr(check, 'RUN_LIMIT_S', 30)
+    armed = False
+    try:
+        import signal
+        import threading
+        if threading.current_thread() is threading.main_thread():
+            signal.signal(signal.SIGALRM, _on_alarm)
+            signal.setitimer(signal.ITIMER_REAL, limit)
+            armed = True
+    except (ValueError, AttributeError):
+        pass
     try:
         res = check.run(ch, tier)
     except Abandon as e:
         res = Result()
         res.abandoned = str(e) or 'other-property'
+    except RunTimeout as e:
+        # one run normally takes milliseconds: the library did not come back (endless stabilisation, endless loop ...)
+        tb = e.__traceback__
+        where = []
+        while tb is not None:
+            fn = tb.tb_frame.f_code.co_filename
+            if os.sep + 'sismic' + os.sep in fn:
+                where.append('%s:%d in %s' % (fn.rsplit(os.sep + 'sismic' + os.sep, 1)[-1], tb.tb_lineno, tb.tb_frame.f_code.co_name))
+            tb = tb.tb_next
+        res = Result()
+        res.fail('library-hang', 'the run did not finish within %d s (a run normally takes milliseconds)' % limit,
+                 busy_in=' <- '.join(reversed(where[-4:])) or 'harness code')
     except Exception as e:
         # An exception that escapes from *library* code while a check drives it through legitimate API calls
         # (the innermost frame is inside the sismic tree, and the check did not anticipate it) is an outcome
@@ -182,6 +213,9 @@ def run_one(check, tier, seed=None, record=None):
         res = Result()
         res.fail('library-exception', '%s raised %s: %s (at %s:%d in %s) while the check was exercising it' % (
             'sismic', type(e).__name__, str(e)[:100], fn[len(lib):], last.tb_lineno, last.tb_frame.f_code.co_name))
+    finally:
+        if armed:
+            signal.setitimer(signal.ITIMER_REAL, 0)
     return res, ch.used()
 
 
